@@ -122,6 +122,13 @@ def run_case(spec):
         pos = rnd.randint(1, len(comp[2]))
         try:
             tp = histgen.apply(tree_pre, ["set", "", comp[2][:pos]])
+            # variant (side stream, the main one is not consumed): an existing resource moved under a folder
+            # that does not exist -- refused by the file system, nothing may be created on the way
+            import random as _random
+            side = _random.Random(hash(rnd.getstate()[1]))
+            if bad[0] == "move" and side.random() < 0.6 and tp:
+                bad = ["move", side.choice(sorted(tp)), side.choice(["nodir/zz.py", "pkg/nodir/zz.py", "nd1/nd2/zz"])]
+                res.ev("natural_failure_move_under_missing_folder")
             try:
                 histgen.apply(tp, bad)
             except histgen.ModelError:  # the model agrees that this step must be refused here
